@@ -61,6 +61,23 @@ class TRec(T):
         vals = {n: self.get(sym, n) for n, _ in self.fields}; vals[f] = v
         return self.make(**vals)
 
+class TURec(TRec):
+    """record as an uninterpreted sort with accessor / constructor functions and the axioms  f_i(mk(x)) = x_i,  mk(f(p)) = p.
+    Same interface as TRec; used where a z3 datatype containing sequences would be an array index (slow theory combination)."""
+    def __init__(self, name, fields):
+        self.name = name; self.fields = list(fields)
+        self._s = DeclareSort(name)
+        self._acc = {f: Function(f'{name}.{f}', self._s, t.sort()) for f, t in self.fields}
+        self._mk = Function(f'{name}.mk', *[t.sort() for _, t in self.fields], self._s)
+    def sort(self): return self._s
+    def get(self, sym, f): return Sym(dict(self.fields)[f], self._acc[f](sym.term))
+    def make(self, **vals): return Sym(self, self._mk(*[vals[f].term for f, _ in self.fields]))
+    def axioms(self):
+        xs = [Const(f'{self.name}_x{i}', t.sort()) for i, (_, t) in enumerate(self.fields)]; p = Const(f'{self.name}_p', self._s)
+        return [ForAll(xs, And([self._acc[f](self._mk(*xs)) == xs[i] for i, (f, _) in enumerate(self.fields)])),
+                ForAll([p], self._mk(*[self._acc[f](p) for f, _ in self.fields]) == p)]
+
+
 def TTuple(*items):
     return TRec('tuple[' + ','.join(t.name for t in items) + ']', [(f'_{i}', t) for i, t in enumerate(items)])
 def TMap(k, v):
